@@ -241,9 +241,9 @@ def oracleC12 (c : TCase) : Verdict :=
       match t.kw, t.op, t.res with
       | "read100", [_, w], ["count", n] =>
         if n.toNat!.ble (unhex w).length then none else some s!"consumed more than offered: {t.raw.take 100}"
-      | "resp", [_, w], "resp" :: n :: _ =>
+      | "resp", [_, w], "resp" :: n :: _ | "cresp", [_, w], "resp" :: n :: _ =>
         if n.toNat!.ble (unhex w).length then none else some s!"consumed more than offered: {t.raw.take 100}"
-      | "bread", [_, w, capS], ["bytes", iS, o] =>
+      | "bread", [_, w, capS], ["bytes", iS, o] | "cread", [_, w, capS], ["bytes", iS, o] =>
         let win := unhex w
         let i := iS.toNat!
         let cap := capS.toNat!
